@@ -100,3 +100,21 @@ Definition unexpected_keys (type_has_district want_county want_district : bool) 
 Definition aggregate_list (district_office : bool) (level : nat) : aggr :=
   let base := if district_office then [0; 1]%nat else [0]%nat in
   filter (fun i => existsb (Nat.eqb i) (level :: base)) [0; 1; 2; 3]%nat.
+
+(* ---- attribution of a unit's votes to groups (used by the theorems and by the comparators) ---- *)
+(* a unit's votes can be attributed to a group of this aggregate list: units outside the model are
+   (deliberately, pinned by the repository's tests) left out of classification-level tables *)
+Definition attributable (a : aggr) (r : urow) : bool :=
+  match ufr r with FUnx => negb (has_cls a) | _ => true end.
+
+Definition contrib (a : aggr) (vnon : urow -> Z) (vf : urow -> Z) (r : urow) : Z :=
+  match ufr r with
+  | FRep => vf r
+  | FNon => vnon r
+  | FUnx => if has_cls a then 0 else vf r
+  end.
+
+Definition delta (a : aggr) (x : urow) (g : key) : Z :=
+  if attributable a x && okey_is (kf a x) g then ures x else 0.
+
+Definition is_some {T} (o : option T) : bool := match o with Some _ => true | None => false end.
